@@ -63,21 +63,22 @@ var (
 
 // Opts selects features of generated programs.
 type Opts struct {
-	MaxDepth   int
-	Subset     bool // stay inside the Go/JS common subset (C04)
-	NoSpecials bool // template text free of & < > " '
-	Msgs       bool
-	Directives bool // print directives (noAutoescape, id, escapeHtml, truncate)
-	Autoescape bool // vary autoescape attributes
-	Astral     bool
-	MarkupDirs bool // also use changeNewlineToBr / insertWordBreaks
-	WideFloats bool // float literals over the whole float64 range (printing only: C17)
-	Recursion  bool // a recursive template bounded by a decreasing argument, called here and there
-	ErrPlants  bool // plant erroring sub-expressions in positions short-circuit never evaluates
-	LetShadow  bool
-	Globals    bool
-	IJ         bool
-	AsciiData  bool
+	MaxDepth     int
+	Subset       bool // stay inside the Go/JS common subset (C04)
+	NoSpecials   bool // template text free of & < > " '
+	Msgs         bool
+	Directives   bool // print directives (noAutoescape, id, escapeHtml, truncate)
+	Autoescape   bool // vary autoescape attributes
+	Astral       bool
+	MarkupDirs   bool // also use changeNewlineToBr / insertWordBreaks
+	NoWordBreaks bool // ... but not insertWordBreaks (which counts astral characters differently per backend)
+	WideFloats   bool // float literals over the whole float64 range (printing only: C17)
+	Recursion    bool // a recursive template bounded by a decreasing argument, called here and there
+	ErrPlants    bool // plant erroring sub-expressions in positions short-circuit never evaluates
+	LetShadow    bool
+	Globals      bool
+	IJ           bool
+	AsciiData    bool
 }
 
 type binding struct {
@@ -743,7 +744,7 @@ func (g *G) printOf(e ref.Expr, t Ty) ref.Node {
 				p.Dirs = append(p.Dirs, ref.Dir{Name: "changeNewlineToBr"})
 			}
 		case 6:
-			if g.O.MarkupDirs {
+			if g.O.MarkupDirs && !g.O.NoWordBreaks {
 				p.Dirs = append(p.Dirs, ref.Dir{Name: "insertWordBreaks", Args: []ref.Expr{lit(ref.Int(int64(1 + g.R.Intn(6))))}})
 			}
 		}
